@@ -66,6 +66,8 @@ func main() {
 		wideStress = true
 	}
 	genCorpus(cl)
+	genCensus(cl, r)
+	genZeroEverywhere(cl, rng.Fork())
 	genNDP(cl, rng.Fork(), scale)
 	genHBH(cl, rng.Fork(), scale)
 	genMDNS(cl, rng.Fork(), scale)
